@@ -1046,6 +1046,9 @@ func buildResObj(params map[string]any, parentKeys []string, key string, schema 
 		if additPropsSchema != nil {
 			// dynamic creation of possibly nested objects
 			for k := range objectParams {
+				if _, declared := schema.Value.Properties[k]; declared {
+					continue // additionalProperties says nothing about a declared property
+				}
 				r, err := buildResObj(params, mapKeys, k, additPropsSchema)
 				if err != nil {
 					return nil, err
